@@ -1,0 +1,25 @@
+//go:build verif
+
+package gcsca
+
+import (
+	"crypto/x509"
+	"sort"
+)
+
+// VerifUploadOrder, when set, receives the sorted key version names of the pending certificates
+// and returns the order in which Finalize uploads them. Simulation-only seam: the shipped build
+// uses the map's iteration order.
+var VerifUploadOrder func(sorted []string) []string
+
+func uploadOrder(certs map[string]*x509.Certificate) []string {
+	names := make([]string, 0, len(certs))
+	for name := range certs {
+		names = append(names, name)
+	}
+	sort.Strings(names)
+	if VerifUploadOrder != nil {
+		return VerifUploadOrder(names)
+	}
+	return names
+}
